@@ -56,10 +56,47 @@ def check(repo, col, tier):
     _init_value(repo, col)
     col.rule("R-C10-derived", "derived parameters are computed from the overridden values", 1)
     derived_after_overrides(repo, col, "R-C10-derived")
+    col.rule("R-C10-sharing", "selections keep one sharing group per selected row unless they select by name", 5)
+    sharing_keys(repo, col, "R-C10-sharing")
     col.rule("R-C10-order", "overrides given later are applied later", 1)
     override_order(repo, col, "R-C10-order")
     col.rule("R-C10-paramsource", "the step reads every physical quantity from the `params` / states it is given, never from the module's tables", 6)
     param_source(repo, col, "R-C10-paramsource")
+
+
+def sharing_keys(repo, col, R):
+    """`controlled_by_param` decides which rows share one trainable.  `_set_controlled_by_param(kind)` numbers the rows for the kinds
+    it knows (comp / branch / cell / edge / filter) and puts EVERYTHING IN VIEW INTO ONE GROUP for any other key (that is how a group
+    name, a channel name or a synapse-type name shares one parameter).  A call with a literal key that is not one of the known
+    kinds therefore silently merges the selection into one sharing group -- a `.loc([...])` view would train one parameter for all
+    selected compartments."""
+    fi = repo.method("Module", "_set_controlled_by_param")
+    known = set()
+    for n in walk_no_nested(fi.node):
+        if isinstance(n, ast.If) and isinstance(n.test, ast.Compare) and len(n.test.ops) == 1:
+            c = n.test.comparators[0]
+            if isinstance(n.test.ops[0], ast.In) and isinstance(c, (ast.List, ast.Tuple, ast.Set)):
+                known |= {e.value for e in c.elts if isinstance(e, ast.Constant)}
+            elif isinstance(n.test.ops[0], ast.Eq) and isinstance(c, ast.Constant):
+                known.add(c.value)
+    if not {"comp", "branch", "cell"} <= known:
+        raise AnalysisError(f"_set_controlled_by_param: the kinds it numbers were not recognised ({sorted(known)})")
+    n_calls = 0
+    for f in repo.all_functions():
+        if not f.file.startswith("jaxley/modules/"):
+            continue
+        for c in walk_no_nested(f.node):
+            if isinstance(c, ast.Call) and isinstance(c.func, ast.Attribute) and c.func.attr == "_set_controlled_by_param" and c.args:
+                n_calls += 1
+                a = c.args[0]
+                lit = a.value if isinstance(a, ast.Constant) else None
+                col.check(lit is None or lit in known, R, f, f"{f.qual}: `{unparse(c)[:60]}` names a kind of selection that is numbered row by row",
+                          f"one of {sorted(known)} (or a group / channel / synapse name held in a variable)",
+                          f"`{unparse(c)[:60]}`: '{lit}' is not one of the kinds {sorted(known)} that _set_controlled_by_param numbers; it falls "
+                          f"through to the branch that puts everything in view into ONE sharing group, so make_trainable on this selection "
+                          f"creates a single parameter for all selected rows", node=c)
+    if n_calls < 5:
+        raise AnalysisError(f"only {n_calls} calls of _set_controlled_by_param found")
 
 
 def override_order(repo, col, R):
@@ -441,7 +478,7 @@ def _strip_drop_remap(ix: T, call: ast.Call, arr_node):
 # --------------------------------------------------------------------------------------
 
 
-def _pstate_args(repo, col, R="R-C10-pstate"):
+def _pstate_args(repo, col, R="R-C10-pstate"):   # shared with C09 (R-C09-pstate)
     """init_fn hands ONE list of overrides -- the trainables followed by the data_set() entries -- to get_all_parameters and to
     get_all_states: data_set() of an initial state must reach the states exactly as data_set() of a parameter reaches the
     parameters."""
@@ -459,14 +496,38 @@ def _pstate_args(repo, col, R="R-C10-pstate"):
                 args[c.func.attr] = (canon(a), c)
     if set(args) != {"get_all_parameters", "get_all_states"}:
         raise AnalysisError("init_fn no longer calls get_all_parameters / get_all_states with a pstate")
+    def alts(t_):
+        if t_.op == "ifexp":
+            return alts(t_.args[1]) + alts(t_.args[2])
+        return [t_]
+
+    def parts(t_):
+        """the concatenated pieces, left to right; list(x) / x.copy() / [*x] are x"""
+        if t_.op == "binop" and t_.name == "+":
+            return parts(t_.args[0]) + parts(t_.args[1])
+        while (t_.op == "call" and t_.name in ("list", "tuple") and len(t_.args) == 1) or (t_.op == "mcall" and t_.name == "copy" and len(t_.args) == 1):
+            t_ = t_.args[0]
+        if t_.op == "list" and len(t_.args) == 1 and t_.args[0].op == "star":
+            return parts(t_.args[0].args[0])
+        return [t_]
     for nm, (a, c) in sorted(args.items()):
-        has_tr = T.find(a, lambda x: x.op == "call" and x.name == "params_to_pstate") is not None
-        has_ds = T.find(a, lambda x: x.op == "binop" and x.name == "+" and
-                        any(y.op == "param" and y.name == "param_state" for y in x.args)) is not None
+        seqs = [parts(x) for x in alts(a)]
+        is_tr = lambda x: T.find(x, lambda y: y.op == "call" and y.name == "params_to_pstate") is not None
+        is_ds = lambda x: x.op == "param" and x.name == "param_state"
+        has_tr = all(any(is_tr(x) for x in sq) for sq in seqs)
+        with_ds = [sq for sq in seqs if any(is_ds(x) for x in sq)]
+        has_ds = bool(with_ds)
         col.check(has_tr and has_ds, R, exi.fi, f"init_fn: {nm} receives the trainables AND the data_set entries",
                   "params_to_pstate(params, ...) + param_state",
                   f"{nm} receives {a.short(100)}: " + ("values fed with data_set() (param_state) never reach it" if not has_ds else
                                                         "the trainable parameters never reach it"), node=c)
+        # entries are applied in list order (each `.at[rows].set` overwrites): the data_set entries come AFTER the trainables, so a
+        # value fed with data_set() through a view wins over a trainable that covers the same rows
+        if has_tr and has_ds:
+            ordered = all(min(i for i, x in enumerate(sq) if is_tr(x)) < min(i for i, x in enumerate(sq) if is_ds(x)) for sq in with_ds)
+            col.check(ordered, R, exi.fi, f"init_fn: {nm} applies the data_set entries after the trainables", "trainables first, then param_state",
+                      f"{nm} receives the data_set entries BEFORE the trainable entries: both are applied in list order, so a trainable that "
+                      f"covers the same rows overwrites the value fed with data_set()", node=c)
     pa, sa_ = args["get_all_parameters"][0], args["get_all_states"][0]
     col.check(pa.key() == sa_.key(), R, exi.fi, "init_fn: parameters and initial states are assembled from the same list of overrides",
               "one pstate", "get_all_parameters and get_all_states receive different override lists", node=args["get_all_states"][1])
